@@ -127,6 +127,8 @@ func c18Loc(args []string) error {
 					val = []string{}
 				case "blank":
 					val = []string{""}
+				case "blanks":
+					val = []string{"", ""}
 				case "present":
 					val = []string{plant(prop, lang)}
 				case "longer":
